@@ -102,6 +102,34 @@ M = [
     ("c19-wrapper-drops-update", "C19", A + "credential_store.rs", "    async fn update_credential(&mut self, cred: Passkey) -> Result<(), StatusCode> {\n        self.write().await.update_credential(cred).await\n    }\n\n    async fn get_info(&self) -> StoreInfo {\n        self.read().await.get_info().await\n    }\n}\n\n#[cfg(any(feature = \"tokio\", test))]\n#[async_trait::async_trait]\nimpl<S: CredentialStore<PasskeyItem = Passkey> + Send + Sync> CredentialStore\n    for tokio::sync::Mutex<S>", "    async fn update_credential(&mut self, cred: Passkey) -> Result<(), StatusCode> {\n        match self.try_write() {\n            Ok(mut g) => g.update_credential(cred).await,\n            Err(_) => Ok(()),\n        }\n    }\n\n    async fn get_info(&self) -> StoreInfo {\n        self.read().await.get_info().await\n    }\n}\n\n#[cfg(any(feature = \"tokio\", test))]\n#[async_trait::async_trait]\nimpl<S: CredentialStore<PasskeyItem = Passkey> + Send + Sync> CredentialStore\n    for tokio::sync::Mutex<S>"),
 ]
 
+M += [
+    # ---------------- second sweep
+    ("c02-id-not-random", "C02", A + "authenticator/make_credential.rs", "let credential_id = passkey_types::rand::random_vec(self.credential_id_length.into());", "let credential_id = { let n: usize = self.credential_id_length.into(); let mut v = passkey_types::crypto::sha256(&input.user.id).to_vec(); v.extend(passkey_types::crypto::sha256(input.rp.id.as_bytes())); v.truncate(n); v };"),
+    ("c02-rpid-lowercase-store", "C02", A + "authenticator/make_credential.rs", "            rp_id: input.rp.id.clone(),", "            rp_id: input.rp.id.trim_start_matches(\"www.\").to_owned(),"),
+    ("c02-origin-from-rpid", "C02", C + "lib.rs", "            ty: webauthn::ClientDataType::Create,\n            challenge: encoding::base64url(&request.challenge),\n            origin: origin.to_string(),", "            ty: webauthn::ClientDataType::Create,\n            challenge: encoding::base64url(&request.challenge),\n            origin: if request.rp.id.is_some() { format!(\"https://{rp_id}\") } else { origin.to_string() },"),
+    ("c03-origin-from-rpid", "C03", C + "lib.rs", "            ty: webauthn::ClientDataType::Get,\n            challenge: encoding::base64url(&request.challenge),\n            origin: origin.to_string(),", "            ty: webauthn::ClientDataType::Get,\n            challenge: encoding::base64url(&request.challenge),\n            origin: format!(\"https://{rp_id}\"),"),
+    ("c03-rpidhash-of-host", "C03", C + "lib.rs", "            .get_assertion(ctap2::get_assertion::Request {\n                rp_id: rp_id.to_owned(),", "            .get_assertion(ctap2::get_assertion::Request {\n                rp_id: rp_id.trim_start_matches(\"login.\").to_owned(),"),
+    ("c04-uv-cap-any-some", "C04", A + "authenticator.rs", "        if options.uv && self.user_validation.is_verification_enabled() != Some(true) {", "        if options.uv && self.user_validation.is_verification_enabled().is_none() && !options.rk {"),
+    ("c05-memorystore-all-on-ids", "C05", A + "credential_store.rs", "            .filter_map(|id| self.get(&*id.id))\n            .cloned()\n            .collect();", "            .filter_map(|id| self.get(&*id.id))\n            .chain(self.values().take(usize::from(allow_credentials.is_some_and(|l| l.len() > 1))))\n            .cloned()\n            .collect();"),
+    ("c07-two-phase-save", "C07", A + "authenticator/make_credential.rs", "        self.store_mut()\n            .save_credential(passkey, input.user.into(), input.rp, input.options)\n            .await?;", "        let mut first = passkey.clone();\n        first.extensions = Default::default();\n        let ext_present = passkey.extensions.hmac_secret.is_some();\n        self.store_mut()\n            .save_credential(first, input.user.into(), input.rp, input.options)\n            .await?;\n        if ext_present {\n            self.store_mut().update_credential(passkey).await?;\n        }"),
+    ("c12-le-counter", "C12", T + "ctap2/attestation_fmt.rs", "            .chain(self.counter.unwrap_or_default().to_be_bytes())", "            .chain(self.counter.unwrap_or_default().to_le_bytes())"),
+    ("c12-no-at-flag", "C12", T + "ctap2/attestation_fmt.rs", "        let flags = if self.attested_credential_data.is_some() {\n            self.flags | Flags::AT\n        } else {\n            self.flags\n        };", "        let flags = self.flags;"),
+    ("c12-decode-counter-le", "C12", T + "ctap2/attestation_fmt.rs", "            counter: Some(u32::from_be_bytes(counter.try_into().unwrap())),", "            counter: Some(u32::from_le_bytes(counter.try_into().unwrap())),"),
+    ("c13-getinfo-swap-5-6", "C13", T + "ctap2/get_info.rs", "        #[serde(rename = 0x05, default, skip_serializing_if = Option::is_none)]", "        #[serde(rename = 0x07, default, skip_serializing_if = Option::is_none)]"),
+    ("c13-null-for-absent", "C13", T + "ctap2/make_credential.rs", "        #[serde(rename = 0x04, default, skip_serializing_if = Option::is_none)]\n        pub ep_att: Option<bool>,", "        #[serde(rename = 0x04, default)]\n        pub ep_att: Option<bool>,"),
+    ("c13-known-key-as-unknown", "C13", T + "utils/serde_workaround.rs", "                    Ok(Ident::from_repr(value).unwrap_or(Ident::Unknown))", "                    Ok(Ident::from_repr(value).filter(|_| value != 200).unwrap_or(Ident::Unknown))"),
+    ("c13-text-key-error", "C13", T + "utils/serde_workaround.rs", "                    Ok(Ident::try_from(value).unwrap_or(Ident::Unknown))\n                }\n                fn visit_bytes", "                    if value.is_empty() { return Err(E::custom(\"empty key\")); }\n                    Ok(Ident::try_from(value).unwrap_or(Ident::Unknown))\n                }\n                fn visit_bytes"),
+    ("c14-padded-base64url", "C14", T + "utils/encoding.rs", "pub fn base64url(data: &[u8]) -> String {\n    BASE64URL_NOPAD.encode(data)", "pub fn base64url(data: &[u8]) -> String {\n    if data.len() == 65 { return BASE64URL.encode(data); }\n    BASE64URL_NOPAD.encode(data)"),
+    ("c14-timeout-float-trunc", "C14", T + "utils/serde.rs", "        self.visit_i64(if v.is_normal() { v as i64 } else { 0 })", "        self.visit_i64(if v.is_normal() && v < 4.0e9 { v as i64 } else { 0 })"),
+    ("c16-shared-slot", "C16", H, "                    let _ = self.channels.insert(channel, message);", "                    let _ = self.channels.insert(channel & 0x7fff_ffff, message);"),
+    ("c16-no-tail-zero", "C16", H, "                buf[data_len..].iter_mut().for_each(|b| *b = 0);", "                buf[data_len..].iter_mut().skip(1).for_each(|b| *b = 0);"),
+    ("c17-status-in-register", "C17", T + "u2f/register.rs", "            .chain(ResponseStatusWords::NoError.as_primitive().to_be_bytes()) // NoError indicates success", "            .chain(ResponseStatusWords::NoError.as_primitive().to_le_bytes()) // NoError indicates success"),
+    ("c17-handle-len-trunc", "C17", T + "u2f/register.rs", "            .chain([self.key_handle.len() as u8])", "            .chain([(self.key_handle.len() as u8) & 0x7f])"),
+    ("c17-parse-p1-dropped", "C17", T + "u2f/commands.rs", "        let p1 = value[2];", "        let p1 = value[2] & 0x0f;"),
+    ("c18-getinfo-transports", "C18", A + "ctap2.rs", "    async fn get_info(&self) -> get_info::Response {\n        self.get_info().await\n    }", "    async fn get_info(&self) -> get_info::Response {\n        let mut r = self.get_info().await;\n        r.transports = None;\n        r\n    }"),
+    ("c19-mutex-save-trylock", "C19", A + "credential_store.rs", "        self.lock()\n            .await\n            .save_credential(cred, user, rp, options)\n            .await\n    }\n\n    async fn update_credential(&mut self, cred: Passkey) -> Result<(), StatusCode> {\n        self.lock().await.update_credential(cred).await\n    }\n\n    async fn get_info(&self) -> StoreInfo {\n        self.lock().await.get_info().await\n    }\n}\n\n#[cfg(any(feature = \"tokio\", test))]\n#[async_trait::async_trait]\nimpl<S: CredentialStore<PasskeyItem = Passkey> + Send + Sync> CredentialStore\n    for Arc<tokio::sync::RwLock<S>>", "        match self.try_lock() {\n            Ok(mut g) => g.save_credential(cred, user, rp, options).await,\n            Err(_) => Ok(()),\n        }\n    }\n\n    async fn update_credential(&mut self, cred: Passkey) -> Result<(), StatusCode> {\n        self.lock().await.update_credential(cred).await\n    }\n\n    async fn get_info(&self) -> StoreInfo {\n        self.lock().await.get_info().await\n    }\n}\n\n#[cfg(any(feature = \"tokio\", test))]\n#[async_trait::async_trait]\nimpl<S: CredentialStore<PasskeyItem = Passkey> + Send + Sync> CredentialStore\n    for Arc<tokio::sync::RwLock<S>>"),
+]
+
 
 def sh(cmd, cwd, timeout=3600):
     p = subprocess.run(cmd, cwd=cwd, shell=True, env=ENV, stdout=subprocess.PIPE, stderr=subprocess.STDOUT, text=True, timeout=timeout)
@@ -111,7 +139,11 @@ def sh(cmd, cwd, timeout=3600):
 def gen():
     os.makedirs(OUT, exist_ok=True)
     kept = []
+    if os.path.exists(os.path.join(OUT, "KEPT.json")):
+        kept = json.load(open(os.path.join(OUT, "KEPT.json")))
     for name, prop, path, old, new in M:
+        if os.path.exists(os.path.join(OUT, name + ".diff")) or os.path.exists(os.path.join(OUT, name + ".dropped")):
+            continue
         sh("git checkout -- .", OWN)
         full = os.path.join(OWN, path)
         src = open(full).read()
@@ -126,6 +158,7 @@ def gen():
         rc2, o2 = sh("cargo check --offline -p passkey-client --features tokio,android-asset-validation 2>&1 | grep -E '^error' ", OWN)
         if failed or passed < 98 or o2.strip():
             print(f"{name}: does not survive the suite / build (passed={passed}, failed={failed}) - dropped")
+            open(os.path.join(OUT, name + ".dropped"), "w").write(o[-2000:] + o2[-2000:])
             continue
         rc, diff = sh("git diff", OWN)
         open(os.path.join(OUT, name + ".diff"), "w").write(diff)
@@ -138,8 +171,11 @@ def gen():
 def run():
     repo = os.environ.get("MUTANT_REPO", "/repo")
     kept = json.load(open(os.path.join(OUT, "KEPT.json")))
-    results = {}
+    results = json.load(open(os.path.join(OUT, "RESULTS.json"))) if os.path.exists(os.path.join(OUT, "RESULTS.json")) else {}
+    only = sys.argv[2:]
     for k in kept:
+        if (only and k["name"] not in only) or (not only and k["name"] in results):
+            continue
         rc, o = sh("git status --porcelain", repo)
         assert not o.strip(), o
         rc, o = sh(f"git apply {OUT}/{k['name']}.diff", repo)
